@@ -1191,7 +1191,20 @@ fn c14_junit(h: &RHistory, out: &mut Vec<Violation>) {
     // Known finding: for a test case that ends skipped the document carries no system-out at all
     // (junit-report writes only `<skipped/>`), so the steps of such scenarios are missing. Exactly
     // that loss is reported under its own code; anything else is compared strictly.
+    // The facts of cases that do not end skipped are owed exactly; set them aside first (the same
+    // fact may be owed by a skipped and by a non-skipped case: the same feature handed over twice),
+    // then look for those of the skipped cases in what is left.
     let mut got_rest = got_steps.clone();
+    let mut got_exact = Bag::new();
+    for (k, n) in &want_steps {
+        if let Some(g) = got_rest.get_mut(k) {
+            let take = (*g).min(*n);
+            *g -= take;
+            if take > 0 {
+                *got_exact.entry(k.clone()).or_insert(0) += take;
+            }
+        }
+    }
     let mut lost_in_skipped = Vec::new();
     for (k, n) in &want_steps_of_skipped {
         match got_rest.get_mut(k) {
@@ -1212,6 +1225,11 @@ fn c14_junit(h: &RHistory, out: &mut Vec<Violation>) {
             out.push(v("facts-missing", format!("JUnit system-out of skipped cases is partially missing: {:?}", lost_in_skipped.iter().take(4).collect::<Vec<_>>())).attr("reporter", rep));
         }
     }
+    // whatever is left over is extra; whatever of the exact part was not found is missing
+    for (k, n) in got_rest {
+        *got_exact.entry(k).or_insert(0) += n;
+    }
+    let got_rest = got_exact;
     if let Some((code, msg)) = diff("JUnit system-out", &got_rest, &want_steps) {
         out.push(v(&format!("facts-{code}"), msg).attr("reporter", rep));
     }
